@@ -124,6 +124,41 @@ auto __redu_len(const T &value) -> decltype(value.length()) {
 }
 """
 
+ARITH_HELPER_SNIPPET = """template <typename T>
+struct __redu_operands {
+  T left;
+  T right;
+};
+
+inline long __redu_floordiv(__redu_operands<long> v) {
+  long q = v.left / v.right;
+  if ((v.left % v.right != 0) && ((v.left < 0) != (v.right < 0))) {
+    --q;
+  }
+  return q;
+}
+
+inline float __redu_floordiv(__redu_operands<float> v) {
+  return floor(v.left / v.right);
+}
+
+inline long __redu_mod(__redu_operands<long> v) {
+  long r = v.left % v.right;
+  if ((r != 0) && ((r < 0) != (v.right < 0))) {
+    r += v.right;
+  }
+  return r;
+}
+
+inline float __redu_mod(__redu_operands<float> v) {
+  float r = fmod(v.left, v.right);
+  if ((r != 0.0f) && ((r < 0.0f) != (v.right < 0.0f))) {
+    r += v.right;
+  }
+  return r;
+}
+"""
+
 LIST_HELPER_SNIPPET = """template <typename T>
 struct __redu_list {
   T *data;
@@ -3157,6 +3192,8 @@ def emit(ast: Program) -> str:
         parts.append("#include <Wire.h>\n#include <LiquidCrystal_I2C.h>\n\n")
     if lcd_state:
         parts.append(LCD_HELPER_SNIPPET + "\n")
+    if "arith" in helpers:
+        parts.append(ARITH_HELPER_SNIPPET + "\n")
     if "list" in helpers:
         parts.append(LIST_HELPER_SNIPPET + "\n")
     if "len" in helpers:
